@@ -63,6 +63,8 @@ pub struct Rich {
     /// (pool, mint, token account): funded token accounts of the pool's mints (and reward mints) whose authority is the pool itself
     /// but which are not its vaults — anybody can create such an account
     pub stray: Vec<(usize, Pubkey, Pubkey)>,
+    /// a pool with non-zero control flags (positions must be non-transferable)
+    pub p_flagged: usize,
 }
 
 fn dynamic(spec: &RichSpec, n: u8) -> bool {
@@ -189,6 +191,16 @@ impl Rich {
         w.must("feature flag", &ix);
         let ix = w.ix_init_token_badge(cfg, &badge_mint.key);
         w.must("token badge", &ix);
+        // a pool whose control flags are set: its Token-2022 mint carries a badge with RequireNonTransferablePosition
+        let nt_mint = w.create_t22_mint(None);
+        let ix = w.ix_init_token_badge(cfg, &nt_mint.key);
+        w.must("token badge (non-transferable positions)", &ix);
+        let ix = w.ix_set_token_badge_attribute(cfg, &nt_mint.key, whirlpool::state::TokenBadgeAttribute::RequireNonTransferablePosition(true));
+        w.must("badge attribute", &ix);
+        let p_flagged = w.init_pool(cfg, &nt_mint, &mx, ts, price).expect("flagged pool");
+        for u in [owner, attacker, trader] {
+            w.user_token(u, &nt_mint, 1 << 58);
+        }
         // trades so that fees / rewards / protocol fees are owed
         w.advance_clock(1000);
         // small enough to keep the price inside the positions' range (the catalog's baseline calls need liquidity in range)
@@ -263,6 +275,7 @@ impl Rich {
             }
         }
         Rich {
+            p_flagged,
             stray,
             sibling,
             cfg_att,
